@@ -21,7 +21,7 @@ def gen_value(rng, kind):
 
 def run_part(ctx, case, bad, mlr_rows, P):
     rng = ctx.rng
-    n = 25 if ctx.tier == "quick" else 600
+    n = 15 if ctx.tier == "quick" else 600
     plans = []
     for pat, rep in ((b"a", b"<.>"), (b".", b""), (b"ab", b"ab"), (b"*", b"\xe2\x82\xac")):
         for names in ([b"a", b"c"], None, [b"d"]):
